@@ -45,6 +45,9 @@ func (e *vfRouteExec) enabledFaults() []string {
 			out = append(out, fmt.Sprintf("breakT:%d", t.idx))
 		}
 	}
+	if len(e.inst) > 1 && !e.failIntraSend && e.faultKind("failIntraSend") {
+		out = append(out, "failIntraSend:0")
+	}
 	for _, s := range e.src {
 		if p := s.pull(); p != nil && p.alive() && !s.needsOpen() && e.faultKind("breakS") {
 			out = append(out, fmt.Sprintf("breakS:%d", s.idx))
@@ -62,6 +65,12 @@ func (e *vfRouteExec) applyFault(a string, f []string) error {
 	}
 	n, _ := strconv.Atoi(f[1])
 	switch f[0] {
+	case "failIntraSend":
+		e.faults++
+		e.hmu.Lock()
+		e.failIntraSend = true
+		e.hmu.Unlock()
+		e.logf("the next task batch sent between the proxy instances will fail")
 	case "breakT":
 		t := e.tgt[n-1]
 		if t.cur() == nil {
@@ -124,6 +133,10 @@ func vfFaultScenarios(tier string) []*vfRouteScenario {
 	}}, 0, 1, "breakT")
 	out[len(out)-1].ChanCap = 1
 	out[len(out)-1].Gated = []int{1}
+	// two proxy instances (source and target 1 on n1, target 2 on n2): the intra-proxy stream fails while a task for
+	// target 2 is handed over to the peer instance
+	add("1x2-two-proxies-intra-send-fails", 1, 2, two, 0, 1, "failIntraSend")
+	out[len(out)-1].Proxies, out[len(out)-1].PlaceT, out[len(out)-1].PlaceS = 2, []int{0, 1}, []int{0}
 	if tier == "thorough" {
 		add("1x2-two-faults", 1, 2, two, 0, 2)
 		add("1x2-multi-fault", 1, 2, [][]vfBatch{{
